@@ -255,7 +255,8 @@ Lemma api_fold : forall ops acc st tys0 groups0 added,
     /\ (exists em, ts_map (snd (fold_left api_step ops (acc, st))) = ts_map st ++ em).
 Proof.
   induction ops as [|op ops IH]; intros acc st tys0 groups0 added Hinv.
-  - exists [], []. cbn [fold_left fst snd length]. rewrite !app_nil_r. repeat split; try assumption.
+  - exists [], []. cbn [fold_left fst snd length]. rewrite !app_nil_r.
+    split; [reflexivity|]. split; [reflexivity|]. split; [exact Hinv|]. split.
     + intros k op id H; destruct k; discriminate.
     + exists []. rewrite app_nil_r. reflexivity.
   - cbn [fold_left]. unfold api_step at 2 4 6 8 10. cbn [fst snd].
@@ -266,7 +267,7 @@ Proof.
     destruct (add_type ty st) as [id st1] eqn:E. cbn [fst snd] in *.
     destruct (IH (acc ++ [id]) st1 tys0 groups0 added1 Hinv1) as (ids & added' & F1 & F2 & F3 & F4 & em2 & F5).
     exists (id :: ids). destruct Hadd as [->| ->].
-    + exists added'. repeat split.
+    + exists added'. split; [|split; [|split; [|split]]].
       * rewrite F1 at 1. rewrite <- app_assoc. reflexivity.
       * cbn [length]. rewrite F2. reflexivity.
       * exact F3.
@@ -274,7 +275,7 @@ Proof.
         -- inversion Hk; inversion Hi; subst. fold ty. rewrite F5. apply lookup_app_some. exact L.
         -- apply (F4 k op' id' Hk Hi).
       * exists (em1 ++ em2). rewrite F5, P3, app_assoc. reflexivity.
-    + exists ([ty] ++ added'). repeat split.
+    + exists ([ty] ++ added'). split; [|split; [|split; [|split]]].
       * rewrite F1 at 1. rewrite <- app_assoc. reflexivity.
       * cbn [length]. rewrite F2. reflexivity.
       * rewrite app_assoc. exact F3.
@@ -372,7 +373,8 @@ Proof.
       /\ (forall k op id, nth_error ops k = Some op -> nth_error ids k = Some id ->
             lookup_map (api_type (fst op) (snd op)) (ts_map (snd (fold_left api_step ops (acc, st)))) = Some id)).
   { clear ops. induction ops as [|op ops IH]; intros acc st added Hinv.
-    - exists [], []. cbn [fold_left fst snd length]. rewrite !app_nil_r. repeat split; try assumption.
+    - exists [], []. cbn [fold_left fst snd length]. rewrite !app_nil_r.
+      split; [reflexivity|]. split; [reflexivity|]. split; [exact Hinv|].
       intros k op id H; destruct k; discriminate.
     - cbn [fold_left]. unfold api_step at 2 4 6. cbn [fst snd].
       set (ty := api_type (fst op) (snd op)).
@@ -388,15 +390,17 @@ Proof.
         destruct (add_type_preserves (api_type (fst o) (snd o)) st1) as (_ & _ & em & _ & _ & Pm & _).
         destruct (add_type (api_type (fst o) (snd o)) st1) as [id2 st2]. cbn [snd] in Pm.
         apply (IHo (acc ++ [id]) id2 st2). rewrite Pm. apply lookup_app_some. exact H. }
-      exists (id :: ids).
-      exists (match Hadd with or_introl _ => added' | or_intror _ => [ty] ++ added' end).
-      repeat split.
-      + rewrite F1, <- app_assoc. reflexivity.
-      + cbn [length]. rewrite F2. reflexivity.
-      + destruct Hadd as [->| ->]; [exact F3|rewrite app_assoc; exact F3].
-      + intros k op' id' Hk Hi. destruct k as [|k]; cbn in Hk, Hi.
+      assert (Hids : fst (fold_left api_step ops (acc ++ [id], st1)) = acc ++ id :: ids)
+        by (rewrite F1, <- app_assoc; reflexivity).
+      assert (Hlen : length (id :: ids) = S (length ops)) by (cbn [length]; rewrite F2; reflexivity).
+      assert (Hlk : forall k op' id', nth_error (op :: ops) k = Some op' -> nth_error (id :: ids) k = Some id' ->
+                lookup_map (api_type (fst op') (snd op')) (ts_map (snd (fold_left api_step ops (acc ++ [id], st1)))) = Some id').
+      { intros k op' id' Hk Hi. destruct k as [|k]; cbn in Hk, Hi.
         * inversion Hk; inversion Hi; subst. fold ty. apply Hmono. exact L.
         * apply (F4 k op' id' Hk Hi). }
+      exists (id :: ids). destruct Hadd as [->| ->].
+      + exists added'. split; [exact Hids|]. split; [exact Hlen|]. split; [exact F3|exact Hlk].
+      + exists ([ty] ++ added'). split; [exact Hids|]. split; [exact Hlen|]. split; [rewrite app_assoc; exact F3|exact Hlk]. }
   assert (H0 : inv0 (flat base) (mk_groups 0 base) (parse_types base order) []).
   { unfold parse_types. rewrite parse_groups_spec. cbn [length app].
     constructor; cbn [ts_types ts_groups ts_map length map Types.ids_from]; rewrite ?app_nil_r; try reflexivity.
@@ -545,7 +549,7 @@ Proof.
   assert (Hreq : forall k op, nth_error (tc_ops c) k = Some op -> requested op = api_type (fst op) (snd op)).
   { intros k [p a] Hk. apply requested_api. rewrite forallb_forall in Hsup.
     apply (Hsup (p, a)). apply (nth_error_In _ _ Hk). }
-  unfold holds_on. rewrite !andb_true_iff. repeat split.
+  unfold holds_on, preserved. rewrite !andb_true_iff. repeat split.
   - apply sound_ok; [exact F2|]. intros k op id Hk Hi. unfold type_at. rewrite Hflat, (Hreq k op Hk).
     apply I3. apply lookup_In. apply (F4 k op id Hk Hi).
   - apply (idempotent_ok (fun t => lookup_map t (ts_map st))). intros k op id Hk Hi.
